@@ -230,6 +230,9 @@ def ms_task(task):
             wrong = [p for p in range(N) if tuple(y.shape) == (B, N) and not torch.equal(y[:, p], exp[:, p])][:4]
             out["fails"].append(dict(case, clause="routing", detail="forward output slots %s differ from the documented routing (slot <- coordinate %s through stages 1..%s)" % (wrong, [route[p] for p in wrong], [stages[p] for p in wrong])))
             continue
+        if lad.dtype != torch.float64 or y.dtype != torch.float64:
+            out["fails"].append(dict(case, clause="logabsdet", detail="float64 inputs give outputs of dtype %s and a log-abs-det of dtype %s" % (y.dtype, lad.dtype)))
+            continue
         if lad.shape != (B,) or not torch.allclose(lad, torch.full((B,), elad, dtype=torch.float64), rtol=1e-12, atol=1e-12):
             out["fails"].append(dict(case, clause="logabsdet", detail="forward logabsdet %s, sum over the stages is %.12g" % (lad.tolist(), elad)))
         # inverse undoes the routing
